@@ -16,6 +16,22 @@ def step (line : String) : String :=
   | ["H", n, _, h] => match n.toNat?, h.toNat? with
     | some n, some h => toString (hashPick (fun (x : Nat) => x) h n)
     | _, _ => "bad-op"
+  | ["RR2", na, nb, sched] => match na.toNat?, nb.toNat? with
+    | some na, some nb =>
+      -- two balancers, each with its own counter: balancer 0 over members 0..na-1, balancer 1 over na..na+nb-1
+      let ka := (sched.toList.filter (· == '0')).length
+      let kb := (sched.toList.filter (· == '1')).length
+      let sa := (rrSeq 0 na ka).map toString
+      let sb := (rrSeq 0 nb kb).map (fun m => toString (na + m))
+      String.intercalate "," sa ++ " | " ++ String.intercalate "," sb
+    | _, _ => "bad-op"
+  | ["RRN", k] => match k.toNat? with
+    | some k =>
+      -- outer alternates between the two inner balancers; inner balancer j is used every second time and alternates itself
+      let outer := rrSeq 0 2 k
+      let leaves := outer.zipIdx.map (fun (o, i) => 2 * o + (i / 2) % 2)
+      String.intercalate "," (leaves.map toString)
+    | none => "bad-op"
   | ["RND", _, _] => "ok"
   | _ => "bad-op"
 
